@@ -745,6 +745,12 @@ func (c *HttpClient) parseIPCStream(raw *bytes.Reader, expected *arrow.Schema, t
 	}
 	defer reader.Release()
 	if expected != nil && !clientSchemasEqual(reader.Schema(), expected) {
+		// A server exception raised before the stream's own schema is known
+		// (a failed init, a refused request) is framed on an empty schema:
+		// surface it as the typed error it carries, not as schema drift.
+		if rpcErr := firstStreamException(reader); rpcErr != nil {
+			return nil, rpcErr
+		}
 		return nil, &RpcError{Type: "TypeError", Message: fmt.Sprintf("response schema mismatch: expected %s, got %s", expected, reader.Schema())}
 	}
 	parsed := &parsedClientStream{}
@@ -788,6 +794,19 @@ func (c *HttpClient) parseIPCStream(raw *bytes.Reader, expected *arrow.Schema, t
 		return nil, &RpcError{Type: "ProtocolError", Message: fmt.Sprintf("read Arrow IPC response batch: %v", err)}
 	}
 	return parsed, nil
+}
+
+// firstStreamException reads the stream to its end and returns the first
+// exception envelope as a typed error, or nil when it carries none.
+func firstStreamException(reader *ipc.Reader) error {
+	for reader.Next() {
+		record := reader.RecordBatch()
+		metadata := recordMetadata(record)
+		if record.NumRows() == 0 && metadata[MetaLogLevel] == string(LogException) {
+			return rpcErrorFromMetadata(metadata)
+		}
+	}
+	return nil
 }
 
 func clientSchemasEqual(left, right *arrow.Schema) bool {
